@@ -48,6 +48,12 @@ def standard_run(R, pid, asserts, default_class, deep=DEEP, quick_alphabet=CORE,
     run_bmc_property(R, pid, sizes, n1=sizes.J - 1, g1=sizes.G - 1, alphabet=quick_alphabet if quick else thorough_alphabet,
                      depth=2, asserts=asserts, classify=classify, extra_seqs=deep, commit=commit,
                      workers=int(os.environ.get('VERIF_WORKERS', '12')))
+    if not quick:
+        # second pass: every sequence of THREE operation kinds over the core alphabet on the smaller world
+        small = model.Sizes(J=3, G=2, U=2, I=1, A=2, T=2, IC=1)
+        run_bmc_property(R, pid, small, n1=2, g1=1, alphabet=quick_alphabet, depth=3, asserts=asserts, classify=classify,
+                         extra_seqs=(), commit=commit, workers=int(os.environ.get('VERIF_WORKERS', '14')), timeout_ms=300000)
+        R.bounds['second_pass'] = {'sizes': small.as_dict(), 'bmc_depth': 3, 'alphabet': quick_alphabet}
 
 
 BMC_TEXT = (' Decided by z3: bounded model checking from the EMPTY database with the real front-end Python (create_batch, '
